@@ -63,7 +63,7 @@ class C20(Prop):
     components = {"real": ["baize.wsgi.middleware (NextRequest/NextResponse/ensure_next/middleware)", "baize.asgi.middleware (CachedStream/NextResponse/middleware)",
                            "baize.*.shortcut (request_response/decorator)", "all response classes", "tempfile.SpooledTemporaryFile"],
                   "stub": ["ASGI/WSGI server peers", "event loop clock/selector, executor inlined at seeded instants", "SimThreads for WSGI SSE"]}
-    hard_probes = ("depth_3", "editing_middleware", "raw_app_repeated_headers", "raw_app_restarts_response", "raw_app_latin1_header", "raw_app_zerocopy", "inner_raises_before_start", "inner_raises_after_start", "zerocopy_offered", "empty_file",
+    hard_probes = ("depth_3", "editing_middleware", "raw_app_repeated_headers", "raw_app_restarts_response", "raw_app_latin1_header", "raw_app_zerocopy", "second_request_same_objects", "inner_raises_before_start", "inner_raises_after_start", "zerocopy_offered", "empty_file",
                    "cached_stream_rolled_to_disk", "executor_latency")
     quick_runs = 120000
     thorough_runs = 1500000
@@ -111,6 +111,8 @@ class C20(Prop):
             stack = [s if s != "dec" else "mw" for s in stack]
         plan["stack"] = stack
         plan["edit"] = t.choice([("x-edited", "yes"), ("x-a", "overridden"), ("cache-control", "no-store")])
+        # a history: the same (bare / wrapped) application objects serve a second, identical request; on ASGI the two may overlap
+        plan["repeat"] = t.weighted([(4, None), (1, "sequential"), (1, "concurrent")])
         return plan
 
     def describe(self, plan, variant=None):
@@ -247,6 +249,11 @@ class C20(Prop):
             else:
                 app = self._build(plan, "wsgi", wrapped, counter, boom)
                 peer.run(app)
+                if plan.get("repeat"):
+                    random.seed(777)
+                    peer2 = WsgiPeer(ctx, ctx.sched, req, surface="wsgi-%s-2nd" % ("wrapped" if wrapped else "bare"))
+                    peer2.run(app)
+                    out["second"] = {"status": peer2.status, "headers": normalise(peer2.header_list()), "body": peer2.body, "exc": peer2.exc or peer2.close_exc}
             out.update(status=peer.status, headers=normalise(peer.header_list()), body=peer.body, exc=peer.exc or peer.close_exc)
             return out
         lats = {"fast": (0.0,), "mixed": (0.0, 0.0, 0.2, 1.0)}[plan["lat"]]
@@ -254,15 +261,35 @@ class C20(Prop):
         async def scenario(loop):
             peer = AsgiHttpPeer(loop, ctx, ctx.sched, req, zerocopy=plan["zerocopy"], send_lats=lats, surface="asgi-%s" % ("wrapped" if wrapped else "bare"))
             app = self._build(plan, "asgi", wrapped, counter, boom)
-            exc = None
-            try:
-                await app(peer.scope, peer.receive, peer.send)
-            except BaseException as e:  # noqa
-                if isinstance(e, (asyncio.CancelledError, SimDeadlock, SimTimeLimit, SimStepLimit)):
-                    raise
-                exc = e
+
+            async def one(p):
+                try:
+                    await app(p.scope, p.receive, p.send)
+                except BaseException as e:  # noqa
+                    if isinstance(e, (asyncio.CancelledError, SimDeadlock, SimTimeLimit, SimStepLimit)):
+                        raise
+                    return e
+                return None
+
+            second = None
+            if plan.get("repeat") == "concurrent":
+                peer2 = AsgiHttpPeer(loop, ctx, ctx.sched, req, zerocopy=plan["zerocopy"], send_lats=lats, surface="asgi-%s-2nd" % ("wrapped" if wrapped else "bare"))
+                t1, t2 = loop.create_task(one(peer), name="first"), loop.create_task(one(peer2), name="second")
+                await asyncio.wait([t1, t2])
+                exc, exc2 = t1.result(), t2.result()
+                second = (peer2, exc2)
+            else:
+                exc = await one(peer)
+                if plan.get("repeat") == "sequential":
+                    random.seed(777)
+                    peer2 = AsgiHttpPeer(loop, ctx, ctx.sched, req, zerocopy=plan["zerocopy"], send_lats=lats, surface="asgi-%s-2nd" % ("wrapped" if wrapped else "bare"))
+                    second = (peer2, await one(peer2))
             await asyncio.sleep(0.01)
-            return {"status": peer.status, "headers": normalise(peer.header_list()), "body": peer.body, "exc": exc, "complete": peer.complete}
+            res = {"status": peer.status, "headers": normalise(peer.header_list()), "body": peer.body, "exc": exc, "complete": peer.complete}
+            if second is not None:
+                p2, e2 = second
+                res["second"] = {"status": p2.status, "headers": normalise(p2.header_list()), "body": p2.body, "exc": e2}
+            return res
 
         try:
             res, loop = run_sim(scenario, ctx.sched, ctx, vcap=100000.0, step_cap=500000)
@@ -348,6 +375,20 @@ class C20(Prop):
             b, w = bare["body"], wrapped["body"]
             kind = "empty" if not w else ("duplicated-prefix" if w[len(w) - len(b):] == b and len(w) > len(b) else "other")
             ctx.violate("C20|%s|body-differs|%s" % (tag, kind), "bare %d bytes %r.., wrapped %d bytes %r.. %s" % (len(b), b[:30], len(w), w[:30], where))
+        # the second request of a history: the wrapped application must still answer like the bare one
+        b2, w2 = bare.get("second"), wrapped.get("second")
+        if b2 is not None and w2 is not None and plan["inner"] != "view" or (b2 is not None and w2 is not None and plan["recipe"]["kind"] not in ("sse",)):
+            ctx.probe("second_request_same_objects")
+            if type(b2["exc"]) is not type(w2["exc"]):
+                ctx.violate("C20|%s|2nd-request|escaping-exception-differs|bare-%s|wrapped-%s" % (tag, type(b2["exc"]).__name__, type(w2["exc"]).__name__), where)
+            elif b2["exc"] is None:
+                exp2 = list(b2["headers"])
+                if n_edit:
+                    k, v = plan["edit"]
+                    exp2 = sorted([(hk, hv) for hk, hv in exp2 if hk != k] + [(k, v)])
+                if b2["status"] != w2["status"] or w2["headers"] != exp2 or b2["body"] != w2["body"]:
+                    ctx.violate("C20|%s|2nd-request|%s-differs" % (tag, "status" if b2["status"] != w2["status"] else ("headers" if w2["headers"] != exp2 else "body")),
+                                "%s history: bare 2nd (%s, %d bytes, %r) wrapped 2nd (%s, %d bytes, %r) %s" % (plan["repeat"], b2["status"], len(b2["body"]), b2["headers"][:6], w2["status"], len(w2["body"]), w2["headers"][:6], where))
 
 
 PROP = C20
